@@ -184,7 +184,7 @@ class RepetitionOperator(Operator):
                 "modulo",
                 op="rep",
                 d=divisor,
-                k=str(self._k),
+                k=_verif_trace.num(self._k),
                 kmod=self._k % divisor,
                 big=self._k >= 2 * divisor,
                 keq=equivalent_k,
@@ -232,7 +232,7 @@ class RangeRepetitionOperator(Operator):
                 "modulo",
                 op="rng",
                 d=divisor,
-                k=str(self._k_max),
+                k=_verif_trace.num(self._k_max),
                 kmod=self._k_max % divisor,
                 big=self._k_max >= 2 * divisor,
                 keq=equivalent_k_max,
